@@ -53,11 +53,12 @@ package eth
 // C08/C04: the logs of a transaction form a set keyed by log index: Add keeps
 // every log already present, in place, and appends the new one exactly when
 // no log with its index is present (whatever order the source delivers in).
-//@ func (*Logs).Add props=C08,C04,C01,C02,C12,C07
+//@ func (*Logs).Add props=C08,C04,C01,C02,C12,C07,C13
 //@   requires ls != nil && other != nil
 //@   ensures [kept] len(*ls) >= old(len(*ls)) && (forall k int :: 0 <= k && k < old(len(*ls)) ==> (*ls)[k].Idx == old((*ls)[k].Idx))
 //@   ensures [no-duplicate] (exists k int :: 0 <= k && k < old(len(*ls)) && old((*ls)[k].Idx) == old((*other).Idx)) ==> len(*ls) == old(len(*ls))
 //@   ensures [added-when-absent] (forall k int :: 0 <= k && k < old(len(*ls)) ==> old((*ls)[k].Idx) != old((*other).Idx)) ==> len(*ls) == old(len(*ls)) + 1 && (*ls)[len(*ls) - 1].Idx == old((*other).Idx)
+//@   ensures [added-with-all-its-topics] len(*ls) == old(len(*ls)) + 1 ==> len((*ls)[len(*ls) - 1].Topics) == old(len((*other).Topics))
 //@   loop#0 invariant forall k int :: 0 <= k && k <= rangeindex ==> (*ls)[k].Idx != (*other).Idx
 //@   loop#1 invariant len(l.Topics) == len((*other).Topics) && (len(l.Topics) == 0 || base(l.Topics) != base((*other).Topics))
 //@   loop#1 invariant forall k int :: 0 <= k && k < len((*other).Topics) ==> (*other).Topics[k] == old((*other).Topics[k])
